@@ -1,6 +1,6 @@
 /-
 M4: `liquer.cache.SQLCache` / `SQLStringCache` **as fixed by D8 (remove resets the key memo), D9
-(`SQLStringCache.from_sqlite` passes `delete_before_insert=True`) and D16 (`get` does not serve a row
+(`SQLStringCache.from_sqlite` passes `delete_before_insert=True`) and D18 (`get` does not serve a row
 without data)**.
 
 The table is the list of its rows in insertion (rowid) order: `INSERT` appends, `DELETE … WHERE query=?`
